@@ -2,7 +2,7 @@
 import elayer
 from props.ecommon import mix
 
-PROJ = {"pool": ["cons", "capr"], "A": [0, 2, 3], "res": [0, 1]}
+PROJ = {"pool": ["cons", "capr"], "A": [0, 2, 3], "K": True, "res": [0, 1]}
 
 
 def run(ctx):
